@@ -241,6 +241,7 @@ def entry_state(spec, tree, warm):
     st.env['self'] = C.self_obj(spec['fields'])
     for nm in ('X', 'y', 'Y', 'datafit', 'penalty', 'np', 'sparse', 'warnings', 'scipy', 'norm'):
         st.env[nm] = SObj(nm)
+    st.env['y'] = SObj('y', attrs={'ndim': 1})
     for nm in ('ConvergenceWarning', 'UserWarning', 'ValueError', 'AttributeError'):
         st.env[nm] = SObj(nm)
     ns, nf = z3.Int('n_samples'), z3.Int('n_features')
@@ -454,7 +455,21 @@ def c17_return(T, cfg, k, st, w, objs, stop, fi):
             samex = all(st.heap[l].eq(app['snap'][l]) for l in xlocs if l in app['snap'])
             _check(T, f'{cfg}/obj-last:no-write-to-Xw-after-append@p{k}', st, z3.BoolVal(samex))
             xl = next(iter(xlocs)) if xlocs else None
-            if xl is not None:
+            if xl is not None and isinstance(app['val'], (SReal, SInt)):
                 val = to_real(app['val'])
-                _check(T, f'{cfg}/obj-last==datafit.value+penalty.value(w[:n_features])@p{k}', st,
-                       val == C.DVAL(wv, st.heap[xl]) + C.PVAL(wv, z3.IntVal(0), nf))
+                if xl in st.ghost.get('gramgrad', set()):
+                    # Gram solver: the quadratic datafit is evaluated in Gram form  0.5 w^T G w - (X^T y / n)^T w + ||y||^2 / (2n)
+                    # (equal to datafit.value by expanding the square: trusted algebra); the penalty on the whole w (no intercept)
+                    gq = st.ghost.get('gram_G')
+                    exp = C.gram_objective(st, wv, gq) if gq else None
+                    if exp is None:
+                        T.failed(f'{cfg}/obj-last==gram-form-objective@p{k}', 'Gram matrix / X^T y of the epoch kernel not identified')
+                    else:
+                        c0 = st.env.get('scaled_y_norm2')     # ||y||^2 / (2 n): the w-independent term, computed once before the loop
+                        if not isinstance(c0, (SReal, SInt)):
+                            T.failed(f'{cfg}/obj-last==gram-form-objective+||y||^2/2n@p{k}', 'constant term not a scalar local')
+                        else:
+                            _check(T, f'{cfg}/obj-last==gram-form-objective+||y||^2/2n@p{k}', st, val == exp + to_real(c0))
+                else:
+                    _check(T, f'{cfg}/obj-last==datafit.value+penalty.value(w[:n_features])@p{k}', st,
+                           val == C.DVAL(wv, st.heap[xl]) + C.PVAL(wv, z3.IntVal(0), nf))
